@@ -52,6 +52,7 @@ Section Tables.
   Variable t_svdfail : list (jacm float).
   Variable t_bro : list ((jacm float * list float * list float * list float * list float) * jacm float).
   Variable t_log : list (float * float).      (* numpy.log10: argument, result *)
+  Variable t_match : list (N * N).            (* (selector string, tag or name) pairs for which re.fullmatch succeeds *)
 
   Fixpoint lookup {K V} (eq : K -> K -> bool) (k : K) (l : list (K * V)) : option V :=
     match l with
@@ -87,10 +88,12 @@ Section Tables.
   Definition log_tab (x : float) : float :=
     match lookup feqb x t_log with Some y => y | None => nan end.
 
+  Definition match_tab (p a : N) : bool := existsb (fun q => N.eqb (fst q) p && N.eqb (snd q) a) t_match.
+
   Definition fenv : env :=
     mkEnv float 0%float 1%float 0.5%float PrimFloat.add PrimFloat.sub PrimFloat.mul PrimFloat.div
           PrimFloat.abs PrimFloat.ltb PrimFloat.leb c_tolj 10%float 100%float c_atol c_lo c_hi
-          f_tab pen_tab newton_tab bro_tab log_tab.
+          f_tab pen_tab newton_tab bro_tab log_tab match_tab.
   Definition m_run_op (c : fcfg) := run_op fenv c.
   Definition m_init (c : fcfg) := init fenv c.
 End Tables.
@@ -141,6 +144,7 @@ Record tcase := mkCase {
   t_svdfail : list (jacm float);
   t_bro : list ((jacm float * list float * list float * list float * list float) * jacm float);
   t_log : list (float * float);
+  t_match : list (N * N);
   t_init : outc * option obs;
   t_ops : list tstep }.
 
@@ -159,7 +163,7 @@ Fixpoint replay (c : tcase) (cf : fcfg) (k : nat) (prev : nat) (s : fstate) (ops
   | TOp nc o clr oc ob :: rest =>
       let cf := match nc with Some c' => c' | None => cf end in
       let prev := if clr then 0 else prev in
-      match m_run_op (t_f c) (t_pen c) (t_newton c) (t_svdfail c) (t_bro c) (t_log c) cf fuel o s with
+      match m_run_op (t_f c) (t_pen c) (t_newton c) (t_svdfail c) (t_bro c) (t_log c) (t_match c) cf fuel o s with
       | Ok s' => if outc_eqb oc OOk && obs_ok prev s' ob then replay c cf (S k) (o_loglen ob) s' rest else Some k
       | Err e s' => if outc_eqb oc (OErr e) && obs_ok prev s' ob then replay c cf (S k) (o_loglen ob) s' rest else Some k
       | Div => Some k
@@ -169,7 +173,7 @@ Fixpoint replay (c : tcase) (cf : fcfg) (k : nat) (prev : nat) (s : fstate) (ops
 (* None = the model reproduces the run; Some k = first differing operation
    (0 = the constructor, k+1 = step k) *)
 Definition case_result (c : tcase) : option nat :=
-  match m_init (t_f c) (t_pen c) (t_newton c) (t_svdfail c) (t_bro c) (t_log c) (t_cfg c) (t_k0 c) (t_va0 c), t_init c with
+  match m_init (t_f c) (t_pen c) (t_newton c) (t_svdfail c) (t_bro c) (t_log c) (t_match c) (t_cfg c) (t_k0 c) (t_va0 c), t_init c with
   | Ok s, (OOk, Some ob) =>
       if obs_ok 0 s ob then option_map S (replay c (t_cfg c) 0 (o_loglen ob) s (t_ops c)) else Some 0
   | Err e _, (OErr e', _) => if err_eqb e e' then None else Some 0
